@@ -2,9 +2,12 @@
 Tuner, the Coq case term / checker prelude for model/Tuner.v, and the INDEPENDENT Python checkers
 of C01 and C12 on the implementation trace (they know nothing about the model)."""
 import copy
+import json
+import os
 import random
 
 import scripted
+from common import VERIF
 
 IMPORTS = "From Verif Require Import model.Base model.Tuner.\nOpen Scope Q_scope.\n"
 
@@ -61,11 +64,11 @@ def gen_criterion(rng, rich):
 
 def gen_case(rng, rich_criterion=False, small=False):
     n_workers = rng.choice([1, 1, 2, 2, 3, 4, 5, 6]) if not small else rng.choice([1, 2])
-    params = dict(n_workers=n_workers, wait=rng.random() < 0.4, max_failures=rng.choice([0, 1, 1, 2, 3, 50]),
+    params = dict(n_workers=n_workers, wait=rng.random() < 0.4, max_failures=rng.choice([0, 1, 2, 3, 50, 50]),
                   criterion=gen_criterion(rng, rich_criterion))
     params["async"] = rng.random() < 0.75
     style = rng.choice(["plain", "plain", "pausey", "stoppy", "faulty", "quiet", "exhaust", "chaos"])
-    profile = dict(polls=rng.choice([3, 6, 10, 16, 25, 40]) if not small else rng.randint(1, 4),
+    profile = dict(polls=rng.choice([6, 10, 16, 25, 40]) if not small else rng.randint(1, 4),
                    max_reports=rng.choice([1, 2, 3, 3]), ts_jitter=rng.choice([0, 3, 9]),
                    dt=rng.choice([0.0, 1.0, 1.0, 4.0]))
     if style == "pausey":
@@ -102,7 +105,7 @@ def replayable(case, out):
 
 def coq_case(case, out):
     T = scripted.coq_terms()
-    return "(%s,\n  %s,\n  %s, %s,\n  %s, %s, %s)" % (
+    return "((%s,\n  %s,\n  %s, %s,\n  %s, %s, %s) : run_case)" % (
         T["params"](case["params"]), T["oracles"](out["record"]), "%d%%nat" % (out["iterations"] + 2),
         T["trace"](out["trace"]), T["outcome"](out["outcome"]), T["smap"](out["smap"]), T["statuses"](out["workers"]))
 
@@ -211,7 +214,9 @@ def check_c01(params, out):
                 expect.append((t, idx))
                 if t in decided and len(expect) == decided[t]:
                     gone.add(t)
-            if told != expect:
+            cut_by_exception = (out["outcome"][0] == "exception" and told == expect[:len(told)]
+                                and not any(e[0] == "cb_fetch" for e in tr[j:]))
+            if told != expect and not cut_by_exception:
                 bad.append(("poll returned results %s but the scheduler was told %s" % (fetched, told),
                             dict(check="callbacks", event="results_not_delivered_once_in_order")))
                 break
@@ -274,7 +279,9 @@ def check_c12(params, out):
         for field, key in (("max_num_trials_started", "started"), ("max_num_trials_completed", "completed"),
                            ("max_num_trials_finished", "finished")):
             b = crit.get(field)
-            if b is not None and at_exit[key] > max(b, 0) + n and out["outcome"][0] == "normal":
+            if key != "started" and params["wait"]:
+                continue  # running trials are meant to finish after the criterion holds: no n_workers bound claimed
+            if b is not None and at_exit[key] > max(b, 0) + n:
                 bad.append(("%s=%d but %d trials %s at loop exit with n_workers=%d" % (field, b, at_exit[key], key, n),
                             dict(check="overshoot", field=field)))
     # ---- failure limit -------------------------------------------------------------------------------
@@ -325,3 +332,66 @@ def nontrivial(out):
     decs = {ev[3] for ev in out["trace"] if ev[0] == "s_result"}
     return ("b_start" in ks and ("s_complete" in ks or "s_error" in ks) and
             (("PAUSE" in decs) or ("STOP" in decs)) and out["iterations"] >= 3)
+
+
+# ------------------------------------------------------------------------------------------
+# driver (a): scripted whole runs compared with the model
+# ------------------------------------------------------------------------------------------
+def corpus_cases(prop):
+    d = os.path.join(VERIF, "corpus", prop)
+    res = []
+    if os.path.isdir(d):
+        for f in sorted(os.listdir(d)):
+            if f.endswith(".json"):
+                res.append(json.load(open(os.path.join(d, f)))["case"])
+    return res
+
+
+def _with_case_dir_retry(f, attempts=3):
+    """common.py evaluates cases in a per-process scratch directory under build/cases; when several checks run
+    at the same time another process' clean-up can remove it under our feet: re-create it and try again."""
+    import common
+    for k in range(attempts):
+        try:
+            return f()
+        except FileNotFoundError:
+            if k == attempts - 1:
+                raise
+            common._CASE_DIR = None
+
+
+def scripted_runs(ctx, cases, checker, prop_name, shard=20):
+    """Runs every case on the implementation, applies the independent checker, then the Coq comparison."""
+    terms, meta = [], []
+    for case in cases:
+        out = run_case(case)
+        if out["aborted"]:
+            ctx.h("outcome", "aborted")
+            ctx.notes.append("a generated run exceeded the hard iteration limit and was dropped")
+            continue
+        rep = replayable(case, out)
+        histograms(ctx, case, out)
+        ctx.count(rep, nontrivial=nontrivial(out))
+        ctx.traces_validated += 1
+        if len(ctx.samples) < 2 and 20 < len(out["trace"]) < 80:
+            ctx.sample(dict(params=case["params"], style=case.get("style"), trace_head=out["trace"][:25],
+                            outcome=out["outcome"], status_map=out["smap"]))
+        for what, sig in checker(case["params"], out):
+            ctx.violation("property", what, case=rep, signature=sig)
+        terms.append(coq_case(case, out))
+        meta.append((rep, out))
+    if terms:
+        bad = _with_case_dir_retry(lambda: ctx.coq_bad_cases("run", IMPORTS, PRELUDE, "chk_run", terms, shard=shard))
+        if bad:
+            diag = _with_case_dir_retry(
+                lambda: ctx.coq_eval("diag", IMPORTS, PRELUDE, ["diag_run %s" % terms[i] for i in bad[:3]]))
+        for n, i in enumerate(bad):
+            rep, out = meta[i]
+            d = diag[n] if n < 3 else ""
+            ctx.violation("correspondence",
+                          "model/Tuner.v run differs from the real Tuner.run() on a scripted run; "
+                          "(first differing event index, model event, model outcome, status map equal, workers equal) = %s; "
+                          "implementation outcome %s" % (d, out["outcome"]),
+                          case=rep, failing_input=False, broken="correspondence chk_run (model/Tuner.v run) for " + prop_name)
+
+
